@@ -168,6 +168,8 @@ type weaver struct {
 	tramps  map[string]string // trampoline name -> source
 	order   []string
 	nTmp    int
+
+	needSelectN bool
 }
 
 func (w *weaver) info() *types.Info { return w.pkg.TypesInfo }
@@ -990,9 +992,14 @@ func (w *weaver) selectStmt(s *ast.SelectStmt) (before []ast.Stmt, repl ast.Stmt
 			cc.Body = w.stmts(cc.Body)
 		}
 	}
+	if len(comm) > 1 {
+		if b, r, ok := w.multiSelect(s, comm, hasDefault); ok {
+			return b, r, nil
+		}
+	}
 	if len(comm) != 1 {
-		// Go picks among several ready cases with its own random source: not
-		// ownable. Leave it alone and flag it if it ever executes.
+		// Not expressible (or a bare `select {}`): leave it alone and flag it
+		// if it ever executes.
 		weaveBodies()
 		before = []ast.Stmt{w.unsupported(fmt.Sprintf("select with %d communication cases", len(comm)), s)}
 		return
@@ -1043,6 +1050,151 @@ func (w *weaver) selectStmt(s *ast.SelectStmt) (before []ast.Stmt, repl ast.Stmt
 		x.Body = append([]ast.Stmt{exprStmt(call("vhPost", id(tk), intLit(kind), ch, lit(site), intLit(aux)))}, x.Body...)
 	}
 	return
+}
+
+// multiSelect rewrites a select with several communication cases so that the
+// simulator, not Go's runtime, decides which ready case is taken: the cases are
+// tried one at a time, non-blockingly, in an order the simulator chooses; if
+// none is ready the default is taken or the goroutine blocks in the real
+// select. The bodies move into a switch on the index of the case taken.
+func (w *weaver) multiSelect(s *ast.SelectStmt, comm []*ast.CommClause, hasDefault bool) (before []ast.Stmt, repl ast.Stmt, ok bool) {
+	site := w.site(s)
+	type caseInfo struct {
+		ch     string
+		send   bool
+		comm   ast.Stmt // the rewritten communication, usable in several selects
+		prolog []ast.Stmt
+		clause *ast.CommClause
+	}
+	var infos []caseInfo
+	var decls []ast.Stmt
+	for _, cc := range comm {
+		ci := caseInfo{clause: cc}
+		var chExpr ast.Expr
+		switch c := cc.Comm.(type) {
+		case *ast.SendStmt:
+			chExpr, ci.send = c.Chan, true
+		case *ast.ExprStmt:
+			u, isRecv := unparen(c.X).(*ast.UnaryExpr)
+			if !isRecv || u.Op != token.ARROW {
+				return nil, nil, false
+			}
+			chExpr = u.X
+		case *ast.AssignStmt:
+			if len(c.Rhs) != 1 {
+				return nil, nil, false
+			}
+			u, isRecv := unparen(c.Rhs[0]).(*ast.UnaryExpr)
+			if !isRecv || u.Op != token.ARROW {
+				return nil, nil, false
+			}
+			chExpr = u.X
+		default:
+			return nil, nil, false
+		}
+		if t := w.info().TypeOf(chExpr); t == nil {
+			return nil, nil, false
+		}
+		ci.ch = w.tmp("c")
+		decls = append(decls, &ast.AssignStmt{Lhs: []ast.Expr{id(ci.ch)}, Tok: token.DEFINE, Rhs: []ast.Expr{w.expr(chExpr)}})
+		recvExpr := &ast.UnaryExpr{Op: token.ARROW, X: id(ci.ch)}
+		switch c := cc.Comm.(type) {
+		case *ast.SendStmt:
+			ci.comm = &ast.SendStmt{Chan: id(ci.ch), Value: w.expr(c.Value)}
+		case *ast.ExprStmt:
+			ci.comm = exprStmt(recvExpr)
+		case *ast.AssignStmt:
+			if c.Tok == token.ASSIGN {
+				lhs := make([]ast.Expr, len(c.Lhs))
+				for i := range c.Lhs {
+					lhs[i] = w.expr(c.Lhs[i])
+				}
+				ci.comm = &ast.AssignStmt{Lhs: lhs, Tok: token.ASSIGN, Rhs: []ast.Expr{recvExpr}}
+				break
+			}
+			// x[, ok] := <-ch : hoist to uniquely named variables, re-declare
+			// the original names at the top of the case body
+			ct, isChan := w.info().TypeOf(chExpr).Underlying().(*types.Chan)
+			if !isChan {
+				return nil, nil, false
+			}
+			var lhs []ast.Expr
+			for i, l := range c.Lhs {
+				name, isIdent := l.(*ast.Ident)
+				if !isIdent {
+					return nil, nil, false
+				}
+				tv := w.tmp("v")
+				typ := "bool"
+				if i == 0 {
+					typ = w.typeString(ct.Elem(), site)
+				}
+				decls = append(decls, &ast.DeclStmt{Decl: &ast.GenDecl{Tok: token.VAR, Specs: []ast.Spec{&ast.ValueSpec{Names: []*ast.Ident{id(tv)}, Type: id(typ)}}}})
+				lhs = append(lhs, id(tv))
+				if name.Name != "_" {
+					ci.prolog = append(ci.prolog,
+						&ast.AssignStmt{Lhs: []ast.Expr{id(name.Name)}, Tok: token.DEFINE, Rhs: []ast.Expr{id(tv)}},
+						&ast.AssignStmt{Lhs: []ast.Expr{id("_")}, Tok: token.ASSIGN, Rhs: []ast.Expr{id(name.Name)}})
+				}
+			}
+			ci.comm = &ast.AssignStmt{Lhs: lhs, Tok: token.ASSIGN, Rhs: []ast.Expr{recvExpr}}
+		}
+		infos = append(infos, ci)
+	}
+	// try(i): one non-blocking attempt at case i
+	var tryCases []ast.Stmt
+	var blockCases []ast.Stmt
+	var chans, sends []ast.Expr
+	for i, ci := range infos {
+		tryCases = append(tryCases, &ast.CaseClause{List: []ast.Expr{intLit(i)}, Body: []ast.Stmt{
+			&ast.SelectStmt{Body: &ast.BlockStmt{List: []ast.Stmt{
+				&ast.CommClause{Comm: ci.comm, Body: []ast.Stmt{&ast.ReturnStmt{Results: []ast.Expr{id("true")}}}},
+				&ast.CommClause{},
+			}}},
+		}})
+		blockCases = append(blockCases, &ast.CommClause{Comm: ci.comm, Body: []ast.Stmt{&ast.ReturnStmt{Results: []ast.Expr{intLit(i)}}}})
+		chans = append(chans, id(ci.ch))
+		sends = append(sends, id(strconv.FormatBool(ci.send)))
+	}
+	try := &ast.FuncLit{
+		Type: &ast.FuncType{Params: &ast.FieldList{List: []*ast.Field{{Names: []*ast.Ident{id("vhi")}, Type: id("int")}}}, Results: &ast.FieldList{List: []*ast.Field{{Type: id("bool")}}}},
+		Body: &ast.BlockStmt{List: []ast.Stmt{
+			&ast.SwitchStmt{Tag: id("vhi"), Body: &ast.BlockStmt{List: tryCases}},
+			&ast.ReturnStmt{Results: []ast.Expr{id("false")}},
+		}},
+	}
+	var block ast.Expr = id("nil")
+	if !hasDefault {
+		block = &ast.FuncLit{
+			Type: &ast.FuncType{Params: &ast.FieldList{}, Results: &ast.FieldList{List: []*ast.Field{{Type: id("int")}}}},
+			Body: &ast.BlockStmt{List: []ast.Stmt{&ast.SelectStmt{Body: &ast.BlockStmt{List: blockCases}}}},
+		}
+	}
+	sel := w.tmp("sel")
+	anyT := &ast.InterfaceType{Methods: &ast.FieldList{}}
+	decls = append(decls, &ast.AssignStmt{Lhs: []ast.Expr{id(sel)}, Tok: token.DEFINE, Rhs: []ast.Expr{
+		&ast.CallExpr{Fun: id("vhSelectN"), Args: []ast.Expr{lit(site),
+			&ast.CompositeLit{Type: &ast.ArrayType{Elt: anyT}, Elts: chans},
+			&ast.CompositeLit{Type: &ast.ArrayType{Elt: id("bool")}, Elts: sends},
+			id(strconv.FormatBool(hasDefault)), try, block}}}})
+	// bodies
+	var sw []ast.Stmt
+	n := 0
+	for _, c := range s.Body.List {
+		cc := c.(*ast.CommClause)
+		body := w.stmts(cc.Body)
+		if cc.Comm == nil {
+			sw = append(sw, &ast.CaseClause{Body: body})
+			continue
+		}
+		body = append(append([]ast.Stmt(nil), infos[n].prolog...), body...)
+		sw = append(sw, &ast.CaseClause{List: []ast.Expr{intLit(n)}, Body: body})
+		n++
+	}
+	w.needSelectN = true
+	w.imports["math/rand"] = "rand"
+	w.count("multiselect")
+	return decls, &ast.SwitchStmt{Tag: id(sel), Body: &ast.BlockStmt{List: sw}}, true
 }
 
 // goStmt rewrites `go f(args)`.
@@ -1400,6 +1552,9 @@ type VerifRuntime interface {
 	Exit(tok int, r interface{})
 	Unsupported(what string, site string)
 	Yield(site string) bool
+	SelectPre(site string, n int) (int, int)
+	SelectBlock(g int, site string, chans []interface{})
+	SelectPost(g int, site string, ch interface{}, send bool, taken int)
 }
 
 // VerifRT is nil outside the simulator: every hook is then a no-op and the
@@ -1494,6 +1649,46 @@ func vhYieldOr(site string, real func()) {
 }
 
 `)
+	if w.needSelectN {
+		b.WriteString(`// vhSelectN runs a select with several communication cases: see multiSelect
+// in /verif/weave. Outside the simulator the cases are tried in random order,
+// which is the distribution Go's select has.
+func vhSelectN(site string, chans []interface{}, sends []bool, hasDefault bool, try func(int) bool, block func() int) int {
+	n := len(chans)
+	g, start := -1, 0
+	if VerifRT != nil {
+		g, start = VerifRT.SelectPre(site, n)
+	}
+	if g < 0 {
+		for _, i := range rand.Perm(n) {
+			if try(i) {
+				return i
+			}
+		}
+		if hasDefault {
+			return -1
+		}
+		return block()
+	}
+	for k := 0; k < n; k++ {
+		i := (start + k) % n
+		if try(i) {
+			VerifRT.SelectPost(g, site, chans[i], sends[i], 1)
+			return i
+		}
+	}
+	if hasDefault {
+		VerifRT.SelectPost(g, site, nil, false, 0)
+		return -1
+	}
+	VerifRT.SelectBlock(g, site, chans)
+	i := block()
+	VerifRT.SelectPost(g, site, chans[i], sends[i], 1)
+	return i
+}
+
+`)
+	}
 	for _, src := range w.order {
 		b.WriteString(src)
 		b.WriteString("\n")
